@@ -2,7 +2,8 @@
    YEAR MONTH DAY DAYOFWEEK DAYOFYEAR TO_DAYS FROM_DAYS LAST_DAY DATEDIFF DATE_ADD DATE_SUB.
    The helpers themselves (date_to_days, days_to_date, day_of_week, day_of_year, days_in_month) are
    the REGENERATED Gen/CalFunc.v (tools/rs2v.py reads datetime.rs on every run; proved against the
-   calendar in Props/C41.v); this file transcribes what the eval_* wrappers do around them.
+   calendar in Props/C41.v); this file transcribes what the eval_* wrappers do around them
+   (repaired tree: fix commit e5e0a82 - day numbers outside 0001-01-01 .. 9999-12-31 give NULL).
    A date argument is given by its fields (y, m, d): the harness passes the text "{:04}-{:02}-{:02}",
    and `parse_date` (split on ' ' and '-', str::parse) returning those fields is an assumption that the
    correspondence run samples, not a modelled step.  Definitions only. *)
@@ -34,6 +35,8 @@ Definition fields_ok (y m d : Z) : bool :=
   (0 <=? y) && (y <=? 9999) && (0 <=? m) && (m <=? 99) && (0 <=? d) && (d <=? 99).
 
 Definition guard (ok : bool) (o : out) : out := if ok then o else OPanic.
+(* MIN_DAY_NUMBER ..= MAX_DAY_NUMBER: the day numbers of 0001-01-01 and 9999-12-31 *)
+Definition day_number_ok (n : Z) : bool := (1 <=? n) && (n <=? 3652059).
 Definition date_text (t : Z * Z * Z) : out := let '(y, m, d) := t in OVal (VText (fmt_date y m d)).
 
 Definition eval_dfn (f : dfn) (args : list darg) : out :=
@@ -50,7 +53,8 @@ Definition eval_dfn (f : dfn) (args : list darg) : out :=
       | DToDays => guard (CalFunc.date_to_days_safe y m d) (OVal (VInt (CalFunc.date_to_days y m d)))
       | _ => guard (CalFunc.days_in_month_safe y m) (OVal (VText (fmt_date y m (CalFunc.days_in_month y m))))
       end
-  | DFromDays, DNum n :: _ => guard (CalFunc.days_to_date_safe n) (date_text (CalFunc.days_to_date n))
+  | DFromDays, DNum n :: _ =>
+      if day_number_ok n then guard (CalFunc.days_to_date_safe n) (date_text (CalFunc.days_to_date n)) else OVal VNull
   | DDateDiff, DDate y1 m1 d1 :: DDate y2 m2 d2 :: _ =>
       if negb (fields_ok y1 m1 d1 && fields_ok y2 m2 d2) then OUnmod else
       guard (CalFunc.date_to_days_safe y1 m1 d1 && CalFunc.date_to_days_safe y2 m2 d2)
@@ -61,7 +65,9 @@ Definition eval_dfn (f : dfn) (args : list darg) : out :=
       guard (CalFunc.date_to_days_safe y m d)
         (let n := CalFunc.date_to_days y m d in
          let n' := match f with DDateAdd => n + k | _ => n - k end in
-         guard (in_i64 n') (guard (CalFunc.days_to_date_safe n') (date_text (CalFunc.days_to_date n'))))
+         (* checked_add / checked_sub, then the range check *)
+         if in_i64 n' && day_number_ok n' then guard (CalFunc.days_to_date_safe n') (date_text (CalFunc.days_to_date n'))
+         else OVal VNull)
   | (DDateAdd | DDateSub), DDate _ _ _ :: DNullA :: _ => ONone
   | _, [] => ONone
   | _, _ => OUnmod
@@ -114,16 +120,4 @@ Definition date_exact (f : dfn) (args : list darg) : sres :=
   | _, _ => SAny
   end.
 
-(* finding class 8: the day arithmetic of DATE_ADD / DATE_SUB / FROM_DAYS is unchecked i64 arithmetic -
-   a day count whose sum, or whose `100 * (days + 306)`, leaves i64 panics *)
-Definition dfn_class (f : dfn) (args : list darg) : Z :=
-  match f, args with
-  | DFromDays, [DNum n] => if CalFunc.days_to_date_safe n then 0 else 8
-  | (DDateAdd | DDateSub), [DDate y m d; DNum k] =>
-      if fields_ok y m d then
-        let n := CalFunc.date_to_days y m d in
-        let n' := match f with DDateAdd => n + k | _ => n - k end in
-        if in_i64 n' && CalFunc.days_to_date_safe n' then 0 else 8
-      else 0
-  | _, _ => 0
-  end.
+(* no finding class is left for the date functions (F-C20-8, panics on huge day counts, is repaired) *)
